@@ -378,3 +378,618 @@ Proof.
     cbv beta. intros l' s' (S' & E & H1 & H2 & H3).
     exists S'; auto.
 Qed.
+
+(* ---------- frames ---------- *)
+Lemma str_eqb_sym a b : str_eqb a b = str_eqb b a.
+Proof.
+  destruct (str_eqb a b) eqn:E.
+  - apply str_eqb_eq in E; subst. symmetry; apply str_eqb_refl.
+  - symmetry. apply str_eqb_neq. apply str_eqb_neq in E. congruence.
+Qed.
+
+Lemma frame_get_replace_same n l f : frame_get n f <> None -> frame_get n (frame_replace n l f) = Some l.
+Proof.
+  induction f as [|[k l0] f IH]; simpl; [congruence|].
+  destruct (str_eqb k n) eqn:E; simpl; rewrite E; auto.
+Qed.
+
+Lemma frame_get_replace_other n k l f : k <> n -> frame_get k (frame_replace n l f) = frame_get k f.
+Proof.
+  intros Hne. induction f as [|[k0 l0] f IH]; simpl; auto.
+  destruct (str_eqb k0 n) eqn:E; simpl.
+  - apply str_eqb_eq in E; subst k0.
+    destruct (str_eqb n k) eqn:E2; auto. apply str_eqb_eq in E2; congruence.
+  - destruct (str_eqb k0 k); auto.
+Qed.
+
+Lemma frame_get_set_same n l f : frame_get n (frame_set n l f) = Some l.
+Proof.
+  unfold frame_set. destruct (frame_get n f) eqn:E.
+  - apply frame_get_replace_same; congruence.
+  - simpl. rewrite str_eqb_refl. reflexivity.
+Qed.
+
+Lemma frame_get_set_other n k l f : k <> n -> frame_get k (frame_set n l f) = frame_get k f.
+Proof.
+  intros Hne. unfold frame_set. destruct (frame_get n f).
+  - apply frame_get_replace_other; auto.
+  - simpl. destruct (str_eqb n k) eqn:E; auto. apply str_eqb_eq in E; congruence.
+Qed.
+
+Lemma frame_ok_decl S T sf df n t l :
+  frame_ok S T sf df -> sfind S l = Some t -> sget n sf = None ->
+  frame_ok S T ((n, t) :: sf) (frame_set n l df).
+Proof.
+  intros [H1 H2] Hl Hn; split.
+  - intros k t0. simpl. destruct (str_eqb n k) eqn:E.
+    + apply str_eqb_eq in E; subst k. intros H; inversion H; subst.
+      exists l; split; auto using frame_get_set_same.
+    + intros Hk. rewrite frame_get_set_other; auto.
+      apply str_eqb_neq in E; congruence.
+  - intros k l0. simpl. destruct (str_eqb n k) eqn:E; [discriminate|].
+    apply str_eqb_neq in E. rewrite frame_get_set_other by congruence. eauto.
+Qed.
+
+Lemma frame_ok_replace S T sf df n t l :
+  frame_ok S T sf df -> sfind S l = Some t -> frame_get n df <> None ->
+  slookup n ((false, sf) :: T) = Some t ->
+  frame_ok S T sf (frame_replace n l df).
+Proof.
+  intros [H1 H2] Hl Hn Hs; split.
+  - intros k t0 Hk. destruct (str_eq_dec k n) as [->|Hne].
+    + simpl in Hs. rewrite Hk in Hs. inversion Hs; subst.
+      exists l; split; auto using frame_get_replace_same.
+    + rewrite frame_get_replace_other by auto. auto.
+  - intros k l0 Hk Hsk t0 Ht0. destruct (str_eq_dec k n) as [->|Hne].
+    + rewrite frame_get_replace_same in Hk by auto. inversion Hk; subst.
+      simpl in Hs. rewrite Hsk in Hs. congruence.
+    + rewrite frame_get_replace_other in Hk by auto. eauto.
+Qed.
+
+Lemma env_update_ok S G fe n t l fe' :
+  env_ok S G fe -> slookup n G = Some t -> sfind S l = Some t ->
+  env_update n l fe = Some fe' -> env_ok S G fe'.
+Proof.
+  intros H; revert fe'. induction H as [|b sf G df e Hf He IH]; intros fe' Hs Hl Hu; simpl in *; [discriminate|].
+  destruct (frame_get n df) eqn:Hg.
+  - inversion Hu; subst. constructor; auto.
+    eapply frame_ok_replace; eauto. congruence.
+  - destruct (env_update n l e) as [e'|] eqn:Hu'; simpl in Hu; inversion Hu; subst.
+    constructor; auto. apply IH; auto.
+    destruct (sget n sf) eqn:Hsf; auto.
+    destruct Hf as [H1 _]. destruct (H1 _ _ Hsf) as (l0 & Hl0 & _). congruence.
+Qed.
+
+Lemma env_update_some n l fe : env_get n fe <> None -> exists fe', env_update n l fe = Some fe'.
+Proof.
+  induction fe as [|f fe IH]; simpl; [congruence|].
+  destruct (frame_get n f); eauto.
+  intros H. destruct (IH H) as (fe' & ->). simpl; eauto.
+Qed.
+
+Lemma env_update_app n l e g :
+  env_update n l (e ++ [g]) =
+  match env_update n l e with
+  | Some e' => Some (e' ++ [g])
+  | None => match frame_get n g with Some _ => Some (e ++ [frame_replace n l g]) | None => None end
+  end.
+Proof.
+  induction e as [|f e IH]; simpl.
+  - destruct (frame_get n g); reflexivity.
+  - destruct (frame_get n f); auto. rewrite IH.
+    destruct (env_update n l e); simpl; auto. destruct (frame_get n g); reflexivity.
+Qed.
+
+Lemma env_update_length n l e e' : env_update n l e = Some e' -> List.length e' = List.length e.
+Proof.
+  revert e'; induction e as [|f e IH]; simpl; intros e' H; [discriminate|].
+  destruct (frame_get n f); [inversion H; reflexivity|].
+  destruct (env_update n l e); simpl in H; inversion H; subst. simpl; f_equal; auto.
+Qed.
+
+Lemma update_var_wp n l e s fe' :
+  str_eqb n underscore = false -> env_update n l (full e s) = Some fe' ->
+  wp (update_var n l e s) (fun e' s' => st_heap s' = st_heap s /\ List.length e' = List.length e /\ full e' s' = fe').
+Proof.
+  intros Hn Hu. unfold update_var, full in *. rewrite Hn. rewrite env_update_app in Hu.
+  destruct (env_update n l e) as [e'|] eqn:E.
+  - inversion Hu; subst. simpl. repeat split; eauto using env_update_length.
+  - destruct (frame_get n (st_globals s)); inversion Hu; subst. simpl. auto.
+Qed.
+
+Lemma set_var_wp n l e s :
+  str_eqb n underscore = false ->
+  wp (set_var n l e s) (fun e' s' => st_heap s' = st_heap s /\ List.length e' = List.length e /\
+        exists f rest, full e s = f :: rest /\ full e' s' = frame_set n l f :: rest).
+Proof.
+  intros Hn. unfold set_var, full. rewrite Hn. destruct e as [|f e]; simpl; repeat split; eauto.
+Qed.
+
+Lemma env_ok_push S G fe : env_ok S G fe -> env_ok S (push G) ([] :: fe).
+Proof. intros H. constructor; auto. split; simpl; intros; discriminate. Qed.
+
+Lemma env_ok_pop S b sf G e s :
+  env_ok S ((b, sf) :: G) (full e s) -> G <> [] -> env_ok S G (full (tl e) s) /\ e <> [].
+Proof.
+  intros H HG. destruct e as [|d e].
+  - unfold full in H; simpl in H. inversion H; subst. inversion H6; subst. congruence.
+  - unfold full in *; simpl in *. inversion H; subst. split; auto. discriminate.
+Qed.
+
+(* growth of the top static frame by declarations *)
+Inductive fgrows (b : bool) (T : tyenv) (sf0 : sframe) : sframe -> Prop :=
+| FG_refl : fgrows b T sf0 sf0
+| FG_decl sf n t : fgrows b T sf0 sf -> sget n sf = None -> binder_ok n = true ->
+    (b = true -> shadow_ok n t T = true) -> fgrows b T sf0 ((n, t) :: sf).
+
+Definition grows (G G' : tyenv) : Prop :=
+  exists b sf0 sf T, G = (b, sf0) :: T /\ G' = (b, sf) :: T /\ fgrows b T sf0 sf.
+
+Lemma fgrows_trans b T a c d : fgrows b T a c -> fgrows b T c d -> fgrows b T a d.
+Proof. intros H1 H2; induction H2; auto. constructor; auto. Qed.
+
+Lemma grows_refl G : G <> [] -> grows G G.
+Proof. destruct G as [|[b sf] T]; [congruence|]. intros _. exists b, sf, sf, T; repeat split; constructor. Qed.
+
+Lemma grows_trans G1 G2 G3 : grows G1 G2 -> grows G2 G3 -> grows G1 G3.
+Proof.
+  intros (b & a & c & T & -> & -> & H1) (b' & c' & d & T' & E & -> & H2).
+  inversion E; subst. exists b', a, d, T'; repeat split; eauto using fgrows_trans.
+Qed.
+
+Lemma ty_eqb_eq a b : ty_eqb a b = true -> a = b.
+Proof. revert b; induction a; destruct b; simpl; intros H; try discriminate; auto; f_equal; auto. Qed.
+
+Lemma ty_eqb_refl a : ty_eqb a a = true.
+Proof. induction a; simpl; auto. Qed.
+
+(* the frame of a for statement, after the body ran, still satisfies the
+   invariant for the frame the next iteration starts with *)
+Lemma frame_ok_shrink S T sf0 sf df :
+  fgrows true T sf0 sf -> frame_ok S T sf df -> frame_ok S T sf0 df.
+Proof.
+  induction 1 as [|sf n t Hg IH Hn Hb Hsh]; auto.
+  intros [H1 H2]. apply IH. split.
+  - intros k t0 Hk. apply H1. simpl. destruct (str_eqb n k) eqn:E; auto.
+    apply str_eqb_eq in E; subst; congruence.
+  - intros k l Hk Hsk t0 Ht0. destruct (str_eqb n k) eqn:E.
+    + apply str_eqb_eq in E; subst k.
+      destruct (H1 n t) as (l' & Hl' & Ht'); [simpl; rewrite str_eqb_refl; reflexivity|].
+      rewrite Hk in Hl'; inversion Hl'; subst.
+      specialize (Hsh eq_refl). unfold shadow_ok in Hsh. rewrite Ht0 in Hsh.
+      apply ty_eqb_eq in Hsh; subst; auto.
+    + eapply H2; eauto. simpl. rewrite E. auto.
+Qed.
+
+(* err / errmsg resolve to the built-in globals *)
+Definition genv_ok (G : tyenv) : Prop :=
+  slookup n_err G = Some TBool /\ slookup n_errmsg G = Some TStr.
+
+Lemma binder_not_reserved n : binder_ok n = true -> n <> n_err /\ n <> n_errmsg /\ str_eqb n underscore = false.
+Proof.
+  unfold binder_ok. intros H. apply andb_true_iff in H as [H1 H2].
+  apply negb_true_iff in H1, H2. split; [|split]; auto.
+  - intros ->. vm_compute in H2. discriminate.
+  - intros ->. vm_compute in H2. discriminate.
+Qed.
+
+Lemma genv_ok_push G : genv_ok G -> genv_ok (push G).
+Proof. intros H; exact H. Qed.
+
+Lemma sget_other n k t sf : n <> k -> sget k ((n, t) :: sf) = sget k sf.
+Proof. intros H. simpl. destruct (str_eqb n k) eqn:E; auto. apply str_eqb_eq in E; congruence. Qed.
+
+Lemma genv_ok_grows G G' : grows G G' -> genv_ok G -> genv_ok G'.
+Proof.
+  intros (b & a & c & T & -> & -> & H) HG. induction H; auto.
+  destruct IHfgrows as [I1 I2]. apply binder_not_reserved in H1 as (N1 & N2 & _).
+  unfold genv_ok in *. cbn [slookup] in *. rewrite !sget_other by auto. auto.
+Qed.
+
+Lemma genv_ok_frame G b v vt : binder_ok v = true -> genv_ok G -> genv_ok ((b, [(v, vt)]) :: G).
+Proof.
+  intros Hb [H1 H2]. apply binder_not_reserved in Hb as (N1 & N2 & _).
+  unfold genv_ok; simpl. destruct (str_eqb v n_err) eqn:E1; [apply str_eqb_eq in E1; congruence|].
+  destruct (str_eqb v n_errmsg) eqn:E2; [apply str_eqb_eq in E2; congruence|]. auto.
+Qed.
+
+(* ---------- typed loads ---------- *)
+Lemma load_num_wp S s l : heap_ok S (st_heap s) -> sfind S l = Some TNum -> wp (load_num l s) (fun _ s' => s' = s).
+Proof.
+  intros Hh Hl. unfold load_num. wbind ltac:(eapply load_wp; eauto). intros v s' [-> Hc].
+  inversion Hc; subst. reflexivity.
+Qed.
+Lemma load_str_wp S s l : heap_ok S (st_heap s) -> sfind S l = Some TStr -> wp (load_str l s) (fun _ s' => s' = s).
+Proof.
+  intros Hh Hl. unfold load_str. wbind ltac:(eapply load_wp; eauto). intros v s' [-> Hc].
+  inversion Hc; subst. reflexivity.
+Qed.
+Lemma load_bool_wp S s l : heap_ok S (st_heap s) -> sfind S l = Some TBool -> wp (load_bool l s) (fun _ s' => s' = s).
+Proof.
+  intros Hh Hl. unfold load_bool. wbind ltac:(eapply load_wp; eauto). intros v s' [-> Hc].
+  inversion Hc; subst. reflexivity.
+Qed.
+
+Lemma value_depth_big : (S (S max_ty_depth) < value_depth)%nat.
+Proof. unfold value_depth, max_ty_depth. lia. Qed.
+
+Lemma deep_ok_value S h l t : heap_ok S h -> sfind S l = Some t -> deep_ok t value_depth.
+Proof.
+  intros Hh Hl. pose proof (ho_tys _ _ Hh _ _ Hl) as Hok. pose proof value_depth_big.
+  unfold ty_ok1 in Hok. apply andb_true_iff in Hok as [H1 H2]. apply ty_small_le in H2.
+  destruct t; simpl in H1; try discriminate;
+    try (left; split; [reflexivity|lia]);
+    try (right; split; [try rewrite orb_false_r in H1; auto|simpl in *; lia]).
+Qed.
+
+(* ---------- inversion of the checker ---------- *)
+Lemma opt_ty_eqb_eq o t : opt_ty_eqb o t = true -> o = Some t.
+Proof. destruct o; simpl; [|discriminate]. intros H; apply ty_eqb_eq in H; congruence. Qed.
+
+Lemma ty_value_not_none t : ty_value t = true -> t <> TNone.
+Proof. intros H E; subst; discriminate. Qed.
+
+Lemma ty_ann_value t : ty_ann t = true -> ty_value t = true.
+Proof. unfold ty_ann; intros H; apply andb_true_iff in H; tauto. Qed.
+
+Lemma arg_ok_value p a : arg_ok p a = true -> ty_value a = true.
+Proof.
+  unfold arg_ok. destruct p; try (intros H; apply andb_true_iff in H as [_ H]; auto using ty_ann_value);
+    destruct a; try discriminate; auto using ty_ann_value.
+Qed.
+
+Lemma ety_EArr F G t es : ety F G (EArr t es) =
+      match es with
+      | [] => match t with
+              | TEmptyArr => Some t
+              | TArr _ => if ty_ann t then Some t else None
+              | _ => None end
+      | _ :: _ =>
+          match t, etys F G es with
+          | TArr u, Some ts => if forallb (ty_eqb u) ts && ty_ann t then Some t else None
+          | _, _ => None
+          end
+      end.
+Proof. reflexivity. Qed.
+
+Lemma ety_ECall F G name t args : ety F G (ECall name t args) =
+      match lookup_sig F name, etys F G args with
+      | Some sg, Some ts =>
+          if sig_args_ok sg ts && ty_eqb (fs_ret sg) t then Some t else None
+      | _, _ => None
+      end.
+Proof. reflexivity. Qed.
+
+Lemma ety_ESlice F G t l lo hi : ety F G (ESlice t l lo hi) =
+      match ety F G l with
+      | Some a =>
+          match a with
+          | TArr _ | TStr => if ty_eqb a t && etyo F G lo && etyo F G hi then Some t else None
+          | _ => None
+          end
+      | None => None
+      end.
+Proof. reflexivity. Qed.
+
+Lemma s1_expr_EArr t es : s1_expr (EArr t es) = ty_s1in t && s1_exprs es.
+Proof. reflexivity. Qed.
+Lemma s1_expr_ECall name t args : s1_expr (ECall name t args) = mem_str name s1_builtins && s1_exprs args.
+Proof. reflexivity. Qed.
+Lemma s1_expr_ESlice t l lo hi : s1_expr (ESlice t l lo hi) = ty_s1in t && s1_expr l && s1_opt lo && s1_opt hi.
+Proof. reflexivity. Qed.
+
+(* ---------- invariant bookkeeping ---------- *)
+Lemma inv_step S S' G e s s' :
+  inv S G e s -> ext S S' -> heap_ok S' (st_heap s') -> st_globals s' = st_globals s -> inv S' G e s'.
+Proof.
+  intros [Hh He] E Hh' Hg. split; auto. unfold full in *. rewrite Hg. eauto using env_ok_ext.
+Qed.
+
+Lemma inv_same S G e s s' :
+  inv S G e s -> st_heap s' = st_heap s -> st_globals s' = st_globals s -> inv S G e s'.
+Proof. intros [Hh He] H1 H2. split; [rewrite H1; auto|unfold full in *; rewrite H2; auto]. Qed.
+
+Definition epost (S : sty) (G : tyenv) (e : env) (t : ty) : loc -> state -> Prop :=
+  fun l s' => exists S', ext S S' /\ inv S' G e s' /\ sfind S' l = Some t.
+
+(* allocation of a result cell *)
+Lemma alloc_epost S0 S G e s v t :
+  ext S0 S -> inv S G e s -> cell_ok S v t -> ty_ok1 t = true -> wp (alloc v s) (epost S0 G e t).
+Proof.
+  intros E0 Hi Hv Ht. eapply wp_mono; [eapply alloc_wp; eauto; apply Hi|]. cbv beta.
+  intros l s' (S' & E & Hh & Hl & Hg). exists S'; split; [eauto using ext_trans|]. split; auto.
+  eapply inv_step; eauto.
+Qed.
+
+Lemma epost_weaken S0 S G e t l s : ext S0 S -> epost S G e t l s -> epost S0 G e t l s.
+Proof. intros E (S' & E' & H). exists S'; split; eauto using ext_trans. Qed.
+
+Lemma ok1_basic : ty_ok1 TNum = true /\ ty_ok1 TStr = true /\ ty_ok1 TBool = true /\ ty_ok1 TAny = true /\ ty_ok1 TNone = true.
+Proof. repeat split; reflexivity. Qed.
+
+Lemma ty_ann_s1in_ok1 t : ty_ann t = true -> ty_s1in t = true -> ty_ok1 t = true.
+Proof. unfold ty_ann. intros H1 H2. apply andb_true_iff in H1 as [_ H1]. auto using ty_s1in_ok1. Qed.
+
+(* ---------- index arithmetic ---------- *)
+Lemma normalize_index_lt f len k : normalize_index f len false = Ok k -> (k < len)%nat.
+Proof.
+  unfold normalize_index. destruct (go_int_exact f) as [i|]; [|discriminate].
+  destruct ((i <? - Z.of_nat len) || (Z.of_nat len - 1 <? i)) eqn:E; [discriminate|].
+  intros H; inversion H; subst. apply orb_false_iff in E as [E1 E2].
+  apply Z.ltb_ge in E1, E2. destruct (i <? 0) eqn:E3; [apply Z.ltb_lt in E3|apply Z.ltb_ge in E3]; lia.
+Qed.
+
+Lemma normalize_index_safe f len b : match normalize_index f len b with Ok _ => True | Er er => safe_err er end.
+Proof.
+  unfold normalize_index. destruct (go_int_exact f); [|exact I].
+  match goal with |- context [if ?c then _ else _] => destruct c end; exact I.
+Qed.
+
+Lemma lift_norm_wp f len b s (Q : nat -> state -> Prop) :
+  (forall k, normalize_index f len b = Ok k -> Q k s) -> wp (lift (normalize_index f len b) s) Q.
+Proof.
+  intros H. unfold lift, wp. pose proof (normalize_index_safe f len b).
+  destruct (normalize_index f len b); auto.
+Qed.
+
+Lemma slice_bounds_wp S s lo hi len :
+  heap_ok S (st_heap s) ->
+  (forall l, lo = Some l -> sfind S l = Some TNum) -> (forall l, hi = Some l -> sfind S l = Some TNum) ->
+  wp (slice_bounds lo hi len s) (fun _ s' => s' = s).
+Proof.
+  intros Hh Hlo Hhi. unfold slice_bounds.
+  apply wp_bind. destruct lo as [l|].
+  - wbind ltac:(eapply load_num_wp; eauto). intros f s1 ->. apply lift_norm_wp. intros a _.
+    apply wp_bind. destruct hi as [l2|].
+    + wbind ltac:(eapply load_num_wp; eauto). intros f2 s1 ->. apply lift_norm_wp. intros b _.
+      destruct (Nat.ltb b a); [exact I|reflexivity].
+    + apply wp_ret. destruct (Nat.ltb len a); [exact I|reflexivity].
+  - apply wp_ret. apply wp_bind. destruct hi as [l2|].
+    + wbind ltac:(eapply load_num_wp; eauto). intros f2 s1 ->. apply lift_norm_wp. intros b _.
+      destruct (Nat.ltb b 0); [exact I|reflexivity].
+    + apply wp_ret. destruct (Nat.ltb len 0); [exact I|reflexivity].
+Qed.
+
+Lemma Forall_firstn {A} (P : A -> Prop) n l : Forall P l -> Forall P (firstn n l).
+Proof. intros H; revert n; induction H; destruct n; simpl; constructor; auto. Qed.
+Lemma Forall_skipn {A} (P : A -> Prop) n l : Forall P l -> Forall P (skipn n l).
+Proof. intros H; revert n; induction H; destruct n; simpl; auto. Qed.
+
+Lemma Forall2_same_ty (S : sty) ls u ts :
+  Forall2 (fun l t => sfind S l = Some t) ls ts -> forallb (ty_eqb u) ts = true ->
+  Forall (fun l => sfind S l = Some u) ls.
+Proof.
+  induction 1; simpl; intros Hf; constructor; apply andb_true_iff in Hf as [H1 H2]; auto.
+  apply ty_eqb_eq in H1; congruence.
+Qed.
+
+Lemma Forall2_out (S : sty) (u : ty) (xs ys : list loc) :
+  Forall2 (fun _ b => sfind S b = Some u) xs ys -> Forall (fun b => sfind S b = Some u) ys.
+Proof. induction 1; constructor; auto. Qed.
+
+Lemma Forall_ext_ty (S S' : sty) u ls : ext S S' ->
+  Forall (fun l => sfind S l = Some u) ls -> Forall (fun l => sfind S' l = Some u) ls.
+Proof. intros E H. eapply Forall_impl; [|exact H]. cbv beta; auto. Qed.
+
+(* copies of a list of cells of one type *)
+Lemma mapM_copy_wp S s d u ls :
+  heap_ok S (st_heap s) -> u <> TNone -> Forall (fun l => sfind S l = Some u) ls ->
+  wp (mapM (copy_or_ref d) ls s)
+     (hpost S (st_globals s) (fun S' ls' => Forall (fun l => sfind S' l = Some u) ls')).
+Proof.
+  intros Hh Hu Hall.
+  eapply wp_mono.
+  - eapply (mapM_wp (copy_or_ref d) (fun S a => sfind S a = Some u) (fun S a b => sfind S b = Some u));
+      eauto.
+    intros S0 s0 a Hh0 Hg0 Ha. rewrite <- Hg0. eapply copy_or_ref_wp; eauto.
+  - cbv beta. intros ls' s' (S' & E & Hh' & Hg' & HF). hdone S'. eapply Forall2_out; eauto.
+Qed.
+
+(* ---------- built-ins ---------- *)
+Definition bpost (S : sty) (G : tyenv) (e : env) (t : ty) : option loc -> state -> Prop :=
+  fun r s' => exists S' l, r = Some l /\ ext S S' /\ inv S' G e s' /\ sfind S' l = Some t.
+
+Lemma ret_alloc_bpost S0 S G e s v t :
+  ext S0 S -> inv S G e s -> cell_ok S v t -> ty_ok1 t = true ->
+  wp ((let* l := alloc v in ret (Some l)) s) (bpost S0 G e t).
+Proof.
+  intros E0 Hi Hv Ht. wbind ltac:(eapply alloc_epost; eauto). intros l s' (S' & E & Hi' & Hl).
+  apply wp_ret. exists S', l; auto.
+Qed.
+
+Lemma none_val_bpost S0 S G e s : ext S0 S -> inv S G e s -> wp (none_val s) (bpost S0 G e TNone).
+Proof. intros. unfold none_val. eapply ret_alloc_bpost; eauto. constructor. Qed.
+
+Lemma join_args_wp S s args sep :
+  heap_ok S (st_heap s) -> Forall (fun l => exists t, sfind S l = Some t) args ->
+  wp (join_args args sep s) (fun _ s' => s' = s).
+Proof.
+  intros Hh Hall. unfold join_args. unfold bindM at 1. unfold depth_fuel at 1.
+  wbind ltac:(apply mapM_pure).
+  - intros a Ha. rewrite Forall_forall in Hall. destruct (Hall a Ha) as (t & Ht).
+    eapply show_wp; eauto using deep_ok_value.
+  - intros p s1 ->. reflexivity.
+Qed.
+
+Lemma ne_err_us : str_eqb n_err underscore = false. Proof. reflexivity. Qed.
+Lemma ne_errmsg_us : str_eqb n_errmsg underscore = false. Proof. reflexivity. Qed.
+
+Lemma global_err_wp S G e s b msg :
+  genv_ok G -> inv S G e s -> wp (global_err e b msg s) (fun _ s' => inv S G e s').
+Proof.
+  intros [G1 G2] [Hh He]. unfold global_err.
+  apply wp_bind. rewrite (lookup_full _ _ _ ne_err_us). simpl.
+  destruct (env_get_sound _ _ _ _ _ He G1) as (l & Hl & Ht). rewrite Hl.
+  wbind ltac:(eapply load_wp; eauto). intros v s' [-> Hc]. inversion Hc; subst.
+  wbind ltac:(eapply store_wp with (t := TBool); eauto; constructor). intros _ s1 [Hh1 Hg1].
+  assert (He1 : env_ok S G (full e s1)) by (unfold full in *; rewrite Hg1; auto).
+  apply wp_bind. rewrite (lookup_full _ _ _ ne_errmsg_us). simpl.
+  destruct (env_get_sound _ _ _ _ _ He1 G2) as (l2 & Hl2 & Ht2). rewrite Hl2.
+  wbind ltac:(eapply load_wp; eauto). intros v s' [-> Hc2]. inversion Hc2; subst.
+  destruct (pieces_str msg); [|exact I].
+  eapply wp_mono; [eapply store_wp with (t := TStr); eauto; constructor|]. cbv beta.
+  intros _ s2 [Hh2 Hg2]. split; auto. unfold full in *; rewrite Hg2; auto.
+Qed.
+
+Lemma arg_ok_basic p a : p <> TGenArr -> p <> TGenMap -> arg_ok p a = true -> a = p.
+Proof.
+  intros N1 N2. unfold arg_ok. destruct p; try congruence;
+    intros H; apply andb_true_iff in H as [H _]; apply ty_eqb_eq in H; auto.
+Qed.
+
+Lemma args0 ts : args_ok [] None ts = true -> ts = [].
+Proof. destruct ts; simpl; [auto|discriminate]. Qed.
+Lemma args1 p ts : args_ok [p] None ts = true -> exists a, ts = [a] /\ arg_ok p a = true.
+Proof.
+  destruct ts as [|a [|b ts]]; simpl; try discriminate.
+  - intros H. apply andb_true_iff in H as [H _]. eauto.
+  - intros H. apply andb_true_iff in H as [_ H]. discriminate.
+Qed.
+Lemma args2 p q ts : args_ok [p; q] None ts = true ->
+  exists a b, ts = [a; b] /\ arg_ok p a = true /\ arg_ok q b = true.
+Proof.
+  destruct ts as [|a [|b [|c ts]]]; simpl; try discriminate.
+  - intros H. apply andb_true_iff in H as [_ H]. discriminate.
+  - intros H. apply andb_true_iff in H as [H1 H]. apply andb_true_iff in H as [H2 _]. eauto.
+  - intros H. apply andb_true_iff in H as [_ H]. apply andb_true_iff in H as [_ H]. discriminate.
+Qed.
+
+Lemma Forall2_any (S : sty) vals ts :
+  Forall2 (fun l t => sfind S l = Some t) vals ts -> Forall (fun l => exists t, sfind S l = Some t) vals.
+Proof. induction 1; constructor; eauto. Qed.
+
+Ltac fa2 H := repeat match type of H with
+  | Forall2 _ _ [] => inversion H; subst; clear H
+  | Forall2 _ _ (_ :: _) =>
+      let l := fresh "a" in let ls := fresh "ls" in let H1 := fresh "Ha" in let H2 := fresh "HF" in
+      inversion H as [|l ? ls ? H1 H2]; subst; clear H; rename H2 into H
+  end.
+
+Ltac sig1 Hok HF :=
+  unfold sig_args_ok in Hok; cbn [fs_var fs_params] in Hok;
+  apply args1 in Hok as (? & -> & Hok); apply arg_ok_basic in Hok; [subst|discriminate|discriminate];
+  let HF' := fresh "HF" in rename HF into HF'; fa2 HF'.
+Ltac sig2 Hok HF :=
+  unfold sig_args_ok in Hok; cbn [fs_var fs_params] in Hok;
+  let H1 := fresh "Hok" in let H2 := fresh "Hok" in
+  apply args2 in Hok as (? & ? & -> & H1 & H2);
+  apply arg_ok_basic in H1; [subst|discriminate|discriminate];
+  apply arg_ok_basic in H2; [subst|discriminate|discriminate];
+  let HF' := fresh "HF" in rename HF into HF'; fa2 HF'.
+
+Lemma bpost_of_alloc_num S G e s f : inv S G e s ->
+  wp ((let* l := alloc (HNum f) in ret (Some l)) s) (bpost S G e TNum).
+Proof. intros. eapply ret_alloc_bpost; eauto using ext_refl. constructor. Qed.
+Lemma bpost_of_alloc_str S G e s x : inv S G e s ->
+  wp ((let* l := alloc (HStr x) in ret (Some l)) s) (bpost S G e TStr).
+Proof. intros. eapply ret_alloc_bpost; eauto using ext_refl. constructor. Qed.
+Lemma bpost_of_alloc_bool S G e s b : inv S G e s ->
+  wp ((let* l := alloc (HBool b) in ret (Some l)) s) (bpost S G e TBool).
+Proof. intros. eapply ret_alloc_bpost; eauto using ext_refl. constructor. Qed.
+
+Lemma emit_none_bpost S G e s ev : inv S G e s ->
+  wp ((let* _ := emitE ev in none_val) s) (bpost S G e TNone).
+Proof.
+  intros Hi. wbind ltac:(apply emitE_wp). intros _ s' [H1 H2].
+  eapply none_val_bpost; eauto using ext_refl, inv_same.
+Qed.
+
+Ltac load_n := wbind ltac:(eapply load_num_wp; eauto; apply_inv_heap); intros ? ? ->
+with apply_inv_heap := match goal with H : inv _ _ _ _ |- _ => apply H end.
+Ltac load_s := wbind ltac:(eapply load_str_wp; eauto; apply_inv_heap); intros ? ? ->.
+
+Lemma unwrap_any_wp S s a :
+  heap_ok S (st_heap s) -> sfind S a = Some TAny -> wp (unwrap_any a s) (fun _ s' => s' = s).
+Proof.
+  intros Hh Ha. unfold unwrap_any.
+  wbind ltac:(eapply load_wp; eauto). intros v s1 [-> Hc]. inversion Hc; subst.
+  eapply wp_mono; [eapply load_wp; eauto|]. cbv beta. intros v2 s2 [-> _]. reflexivity.
+Qed.
+
+Lemma builtin_sound S G e s name vals m sg ts :
+  builtin name e vals = Some m -> mem_str name s1_builtins = true -> builtin_sig name = Some sg ->
+  sig_args_ok sg ts = true -> Forall2 (fun l t => sfind S l = Some t) vals ts ->
+  genv_ok G -> inv S G e s ->
+  wp (m s) (bpost S G e (fs_ret sg)).
+Proof.
+  intros Hb Hs1 Hsig Hok HF HG Hi. pose proof Hi as [Hh He].
+  unfold builtin in Hb.
+  repeat match type of Hb with
+  | (if name_is ?n ?lit then Some _ else _) = Some _ =>
+      let E := fresh "E" in
+      destruct (name_is n lit) eqn:E;
+      [ unfold name_is in E; apply str_eqb_eq in E; subst n; injection Hb as <-;
+        vm_compute in Hs1; try discriminate Hs1;
+        vm_compute in Hsig; injection Hsig as <-; cbn [fs_ret] | clear E ]
+  end.
+  - (* print *)
+    unfold sig_args_ok in Hok; cbn [fs_var fs_params] in Hok.
+    wbind ltac:(eapply join_args_wp; eauto using Forall2_any). intros p s1 ->.
+    apply emit_none_bpost; auto.
+  - (* sprint *)
+    wbind ltac:(eapply join_args_wp; eauto using Forall2_any). intros p s1 ->.
+    destruct (pieces_str p); [|exact I]. apply bpost_of_alloc_str; auto.
+  - (* read *)
+    destruct (st_input s) eqn:Ein.
+    + apply bpost_of_alloc_str. eapply inv_same; eauto.
+    + apply bpost_of_alloc_str. eapply inv_same; eauto.
+  - (* cls *) apply emit_none_bpost; auto.
+  - (* sleep *) sig1 Hok HF. load_n. apply emit_none_bpost; auto.
+  - (* len *)
+    sig1 Hok HF. wbind ltac:(eapply unwrap_any_wp; eauto). intros v s1 ->.
+    destruct v; try exact I; apply bpost_of_alloc_num; auto.
+  - (* typeof *)
+    sig1 Hok HF. wbind ltac:(eapply load_wp; eauto). intros v s1 [-> Hc]. inversion Hc; subst.
+    apply bpost_of_alloc_str; auto.
+  - (* str2num *)
+    sig1 Hok HF. wbind ltac:(eapply global_err_wp; eauto). intros _ s1 Hi1. load_s.
+    destruct (parse_float _); try exact I.
+    + apply bpost_of_alloc_num; auto.
+    + wbind ltac:(eapply global_err_wp; eauto). intros _ s2 Hi2. apply bpost_of_alloc_num; auto.
+  - (* str2bool *)
+    sig1 Hok HF. wbind ltac:(eapply global_err_wp; eauto). intros _ s1 Hi1. load_s.
+    lazymatch goal with |- wp ((if ?c then _ else _) _) _ => destruct c end;
+      [apply bpost_of_alloc_bool; auto|].
+    lazymatch goal with |- wp ((if ?c then _ else _) _) _ => destruct c end;
+      [apply bpost_of_alloc_bool; auto|].
+    wbind ltac:(eapply global_err_wp; eauto). intros _ s2 Hi2. apply bpost_of_alloc_bool; auto.
+  - (* exit *) sig1 Hok HF. load_n. exact I.
+  - (* panic *) sig1 Hok HF. load_s. exact I.
+  - (* join *)
+    unfold sig_args_ok in Hok; cbn [fs_var fs_params] in Hok.
+    apply args2 in Hok as (ta & tb & -> & Hok1 & Hok2).
+    apply arg_ok_basic in Hok2; [subst|discriminate|discriminate]. fa2 HF.
+    wbind ltac:(eapply load_wp; eauto). intros v s1 [-> Hc]. load_s.
+    assert (Hels : forall els, v = HArr els -> Forall (fun l => exists t, sfind S l = Some t) els).
+    { intros els ->. inversion Hc; subst; [|constructor].
+      eapply Forall_impl; [|eassumption]. cbv beta; eauto. }
+    destruct ta; simpl in Hok1; try discriminate; inversion Hc; subst;
+      (wbind ltac:(eapply join_args_wp; eauto); intros p s1 ->;
+       destruct (pieces_str p); [apply bpost_of_alloc_str; auto|exact I]).
+  - (* startswith *) sig2 Hok HF. load_s. load_s. apply bpost_of_alloc_bool; auto.
+  - (* endswith *) sig2 Hok HF. load_s. load_s. apply bpost_of_alloc_bool; auto.
+  - (* min *) sig2 Hok HF. load_n. load_n.
+    repeat match goal with |- context [if ?c then _ else _] => destruct c; try exact I end;
+      apply bpost_of_alloc_num; auto.
+  - (* max *) sig2 Hok HF. load_n. load_n.
+    repeat match goal with |- context [if ?c then _ else _] => destruct c; try exact I end;
+      apply bpost_of_alloc_num; auto.
+  - (* abs *) sig1 Hok HF. load_n. apply bpost_of_alloc_num; auto.
+  - (* sqrt *) sig1 Hok HF. load_n. apply bpost_of_alloc_num; auto.
+  - (* graphics *)
+    destruct (existsb (str_eqb name) gfx_num_names) eqn:E1.
+    { injection Hb as <-. apply existsb_exists in E1 as (x & Hin & Hx). apply str_eqb_eq in Hx; subst x.
+      simpl in Hin. repeat destruct Hin as [<-|Hin]; try contradiction;
+        vm_compute in Hsig; injection Hsig as <-; cbn [fs_ret];
+        sig1 Hok HF; load_n; apply emit_none_bpost; auto. }
+    destruct (existsb (str_eqb name) gfx_xy_names) eqn:E2.
+    { injection Hb as <-. apply existsb_exists in E2 as (x & Hin & Hx). apply str_eqb_eq in Hx; subst x.
+      simpl in Hin. repeat destruct Hin as [<-|Hin]; try contradiction;
+        vm_compute in Hsig; injection Hsig as <-; cbn [fs_ret];
+        sig2 Hok HF; load_n; load_n; apply emit_none_bpost; auto. }
+    destruct (existsb (str_eqb name) gfx_str_names) eqn:E3; [|discriminate].
+    { injection Hb as <-. apply existsb_exists in E3 as (x & Hin & Hx). apply str_eqb_eq in Hx; subst x.
+      simpl in Hin. repeat destruct Hin as [<-|Hin]; try contradiction;
+        vm_compute in Hsig; injection Hsig as <-; cbn [fs_ret];
+        sig1 Hok HF; load_s; apply emit_none_bpost; auto. }
+Qed.
